@@ -937,6 +937,47 @@ pub fn table_iter_cursor(options: &DbOptions, ops: &[&str], target: (&[u8], u64)
     Some(out)
 }
 
+/// Entries (user key, sequence, is_put, value byte) are written with the real `BlockBuilder`, parsed by the real `BlockReader`
+/// and the block iterator is driven through `ops` ("first", "last", "seek", "next", "prev"); the (user key, sequence, value
+/// byte) under the cursor after every step (None = invalid).
+pub fn block_iter_cursor(restart_interval: usize, entries: &[(Vec<u8>, u64, bool, u8)], ops: &[&str], target: (&[u8], u64)) -> Option<Vec<Option<(Vec<u8>, u64, u8)>>> {
+    let mut b: crate::tables::BlockBuilderForVerif = crate::tables::new_block_builder_for_verif(restart_interval);
+    for e in entries {
+        b.add_entry(std::rc::Rc::new(InternalKey::new(e.0.clone(), e.1, op(e.2))), &[e.3]);
+    }
+    let reader: BlockReader<InternalKey> = BlockReader::new(b.finalize()).ok()?;
+    let mut it = reader.iter();
+    let mut out = vec![];
+    for o in ops {
+        match *o {
+            "first" => {
+                let _ = it.seek_to_first();
+            }
+            "last" => {
+                let _ = it.seek_to_last();
+            }
+            "seek" => {
+                let _ = it.seek(&InternalKey::new_for_seeking(target.0.to_vec(), target.1));
+            }
+            "next" => {
+                if !it.is_valid() {
+                    break;
+                }
+                it.next();
+            }
+            "prev" => {
+                if !it.is_valid() {
+                    break;
+                }
+                it.prev();
+            }
+            _ => return None,
+        }
+        out.push(if it.is_valid() { it.current().map(|(k, v)| (k.get_user_key().to_vec(), k.get_sequence_number(), v[0])) } else { None });
+    }
+    Some(out)
+}
+
 /// (offset, size) of every data block of table file 1, read from its index block.
 pub fn table_block_handles(options: &DbOptions) -> Option<Vec<(u64, u64)>> {
     let path = crate::file_names::FileNameHandler::new(options.db_path().to_string()).get_table_file_path(1);
